@@ -281,7 +281,6 @@ class CompiledRouter:
                         'Cannot use converter "{1}" of variable "{0}" in a template '
                         'that includes other characters or variables.'.format(*cpc)
                     )
-            nodes.append(new_node)
             if path_index == len(path) - 1:
                 new_node.method_map = method_map
                 new_node.resource = resource
@@ -289,13 +288,15 @@ class CompiledRouter:
             else:
                 cpc = find_cmp_converter(new_node)
                 if cpc:
-                    # NOTE(caselit): assume success and remove the node if it's not
-                    # supported to avoid leaving the router in a broken state.
-                    nodes.remove(new_node)
                     raise UnacceptableRouteError(
                         _NO_CHILDREN_ERR.format(uri_template, *cpc)
                     )
                 insert(new_node.children, path_index + 1)
+
+            # NOTE: The new branch is attached to the tree only once it has been
+            #   built completely, so that a template that is rejected further
+            #   down does not leave partial nodes behind in the router.
+            nodes.append(new_node)
 
         insert(self._roots)
         # NOTE(caselit): when compile is True run the actual compile step, otherwise
